@@ -23,18 +23,32 @@ particular `sha256 ∘ str` with a non-injective `str`, and any seeded hash), ev
 initial directory (any honest files under any names), and every history — any number of calls by
 any number of processes, crashes at any step (after any prefix of the bytes written), any
 interleaving at step granularity — every call that returns, returns `doit expr`, and no call
-raises.  Unbounded in the length of the history and the number of processes. -/
-theorem C16_safe (w : World) (v : Variant) (hv : v.sound) (s₀ : State) (h₀ : Initial w s₀)
-    (ops : List Op) : Safe w v s₀ ops := by
+raises.  Unbounded in the length of the history and the number of processes.
+
+The comparison `cached_key == expr` is the world's `keyEq` (the code's own `==`, decided by the
+decorator's `_hashable_content`), NOT identity of expressions; the theorem needs, and states, the
+premise `w.KeyOk`: `keyEq a b → doit a = doit b`.  Nothing else is asked of `keyEq` (it may be
+non-reflexive: then the cache never hits; or non-injective: `C16_safe_noninjective`).  The
+premise is an obligation the correspondence checks on every pair of corpus expressions with the
+real `==`; without it the statement is false (`C16_witness_key_equality`). -/
+theorem C16_safe (w : World) (hk : w.KeyOk) (v : Variant) (hv : v.sound) (s₀ : State)
+    (h₀ : Initial w s₀) (ops : List Op) : Safe w v s₀ ops := by
   cases hv
-  exact run_events ops h₀.inv
+  exact run_events hk ops h₀.inv
+
+/-- identity of expressions (the default `keyEq`) satisfies the premise, whatever `key`/`doit` -/
+theorem C16_keyOk_identity (key : Mode → Expr → Nat) (doit : Expr → Val) :
+    ({ key := key, doit := doit } : World).KeyOk := by
+  intro a b h
+  have : a = b := by simpa using h
+  rw [this]
 
 /-- no call raises because of the directory contents (corollary, stated separately) -/
-theorem C16_never_raises (w : World) (v : Variant) (hv : v.sound) (s₀ : State)
+theorem C16_never_raises (w : World) (hk : w.KeyOk) (v : Variant) (hv : v.sound) (s₀ : State)
     (h₀ : Initial w s₀) (ops : List Op) :
     ∀ ev ∈ events w v s₀ ops, ev.out ≠ .raised ∧ ev.out ≠ .tuple := by
   intro ev hev
-  rw [C16_safe w v hv s₀ h₀ ops ev hev]
+  rw [C16_safe w hk v hv s₀ h₀ ops ev hev]
   exact ⟨(by intro h; cases h), (by intro h; cases h)⟩
 
 /-- The directory invariant after any history: every file, under a final or a temp name, that
@@ -70,6 +84,45 @@ def empty₀ : State := initState []
 
 /-- a whole call of process `p` run alone -/
 def solo (p : Nat) (m : Mode) (e : Expr) : List Op := .call p m e :: steps p 10
+
+/-- A key equality that is NOT injective and violates the premise: `keyEq` looks at `e / 2` only
+(two bound methods represented by one "module.qualname"), while `doit` tells `2k` and `2k+1`
+apart.  Every switch is as in the fixed variant, and still the second expression is served the
+first one's unfolding, in the same history or from a directory left by an earlier one. -/
+def wq : World := { w₀ with keyEq := fun a b => a / 2 == b / 2 }
+
+theorem C16_witness_key_equality :
+    ¬ wq.KeyOk ∧ ¬ Safe wq Variant.fixed empty₀ (solo 0 .sha 0 ++ solo 0 .sha 1) ∧
+    ¬ Safe wq Variant.fixed (initState [(.final .sha 0, serNew 1 11)]) (solo 0 .sha 0) := by
+  refine ⟨?_, by decide, by decide⟩
+  intro h
+  exact absurd (h 0 1 (by decide)) (by decide)
+
+/-- A non-injective key equality that DOES satisfy the premise (expressions `2k`, `2k+1` are
+identified and unfold alike: two classes of one qualified name with the same body) is safe: an
+instance of `C16_safe`, with the hit across the two expressions visible in the events. -/
+def wn : World :=
+  { key := fun _ e => e / 2, doit := fun e => 10 + e / 2, keyEq := fun a b => a / 2 == b / 2 }
+
+theorem wn_keyOk : wn.KeyOk := by
+  intro a b h
+  have h' : a / 2 = b / 2 := by simpa [wn] using h
+  simp [wn, h']
+
+theorem C16_safe_noninjective (s₀ : State) (h₀ : Initial wn s₀) (ops : List Op) :
+    Safe wn .fixed s₀ ops := C16_safe wn wn_keyOk .fixed rfl s₀ h₀ ops
+
+example : events wn .fixed empty₀ (solo 0 .sha 0 ++ solo 1 .sha 1) =
+    [⟨0, 0, .value 10⟩, ⟨1, 1, .value 10⟩] := by decide
+
+/-- A key equality that is not even reflexive (a bound method unpickled from the record is never
+`==` to the one of the request): the premise holds vacuously, every call recomputes. -/
+def wirr : World := { w₀ with keyEq := fun _ _ => false }
+
+example : wirr.KeyOk := by intro a b h; simp [wirr] at h
+
+example : events wirr .fixed empty₀ (solo 0 .sha 0 ++ solo 1 .sha 0) =
+    [⟨0, 0, .value 10⟩, ⟨1, 0, .value 10⟩] := by decide
 
 /-- `checksKey = false` (cached value returned without comparing the stored expression): the
 second of two expressions that print identically gets the first one's unfolding. -/
